@@ -5,4 +5,5 @@ From Coq Require Import ZArith QArith List.
 From PV Require Import Base.QUtil Gen.GenRf Model.Rf.
 Extraction Language OCaml.
 Extraction "../ocaml/rf/model.ml"
-  Qred make_sinc make_gauss make_block make_arbitrary make_adiabatic_timing rf_end trap_end mkSys.
+  Qred make_sinc make_gauss make_sinc_fast make_gauss_fast make_block make_arbitrary make_arbitrary_fast
+  make_adiabatic_timing rf_end trap_end mkSys.
